@@ -58,7 +58,7 @@ NAMED = {('above', 'table'), ('above', 'enum'), ('above', 'enum.item'), ('above'
          ('eol', 'ref'), ('eol', 'table.idx'), ('eol', 'table.col'), ('eol', 'enum.item')}
 
 CONTENTS = ['x', 'two words', "it's", 'say "hi"', 'tick `t`', 'open { brace', 'close } brace', '{x}', '[pk]', 'Table t {', 'Ref: a.b > c.d',
-            "'); DROP TABLE x; --", 'a * b / c', '#fff', 'note: \'n\'', 'é ünï']
+            "'); DROP TABLE x; --", 'a * b / c', '#fff', 'note: \'n\'', 'é ünï', 'path C:\\dir\\']
 MULTI = ['l1\nl2\nl3', 'first\nsecond']
 
 
